@@ -182,6 +182,7 @@ class ImplMgr:
         self.roots = {}      # label -> raw container
         self.rootrefs = {}
         self.fbodies = {}    # function task id -> body [(path, term)]
+        self.want_dump = bool(__import__("os").environ.get("XDV_DUMP"))
 
     # -- building blocks -----------------------------------------------------
     def ref(self, path):
@@ -261,8 +262,14 @@ class ImplMgr:
         return out
 
     def observe(self, exc):
-        return {"exc": exc, "store": self.store_json(), "defs": self.defs_json(), "sup": self.sup_json(),
-                "frozen": bool(self.m._tree_frozen), "trace": self.hub.trace}
+        out = {"exc": exc, "store": self.store_json(), "defs": self.defs_json(), "sup": self.sup_json(),
+               "frozen": bool(self.m._tree_frozen), "trace": self.hub.trace}
+        if self.want_dump:
+            try:
+                out["dump"] = [list(p) for p in self.m.dump()]
+            except Exception as e:
+                out["dump"] = type(e).__name__
+        return out
 
     def order_after(self, path):
         """the schedule the implementation computes for an assignment to `path` in the current index
@@ -363,6 +370,18 @@ class ImplMgr:
                 # the textual side of load() is C11's; here the pairs are printed by the library itself
                 pairs = [(str(self.ref(p)), str(self.build(t))) for p, t in op["pairs"]]
                 self.m.load(pairs, overwrite=op["overwrite"])
+            elif kind == "genfun":
+                # a generated setter: source (order of the listed tasks) and its effect on the containers
+                kw = {"x%d" % i: self.ref(pth) for i, (pth, _) in enumerate(op["args"])}
+                src = self.m.mk_fun("f", **kw)
+                by_text = {str(tid): id_json(tid) for tid in self.m.tasks}
+                listed = []
+                for ln in src.split("\n")[1 + len(kw):]:
+                    lhs = ln.strip().split(" = ", 1)[0]
+                    listed.append(by_text.get(lhs, {"unknown": lhs}))
+                extra["listed"] = listed
+                f = self.m.gen_fun("f", **kw)
+                f(*[float("nan") if v == "nan" else v for _, v in op["args"]])
             elif kind == "query":
                 r = self.ref(op["path"])
                 extra["find_deps"] = [id_json(x) for x in self.m.find_deps([r])]
@@ -381,6 +400,8 @@ class ImplMgr:
         impl.update(extra)
         if kind in ("set", "setexpr", "iop"):
             line["order"] = self.order_after(op["path"])
+        if kind == "genfun":
+            line["order"] = extra.get("listed")
         line["impl"] = impl
         return line
 
